@@ -202,6 +202,20 @@ def body_chain(case):
             f"photon density at {det!r} km is {pe1[i]!r}; 525 km value {d525[i]!r} x (d525/ddet)^2 = {exp!r} (event beta={math.degrees(beta[i])!r} deg alt={alt[i]!r} km; rel. diff {abs(pe1[i] - exp) / max(exp, 1e-300):.3e})",
         )
 
+    # input forms: whole-number decay altitudes given as an integer-typed array (a grid of altitudes) are the same events
+    if case.get("int_alt"):
+        whole = np.clip(np.round(alt), -2, 22)
+        e_int = _eas(det, 1.0, 1.0, 1e300)
+        with cut(f"EAS({det} km), decay altitudes as float64 whole numbers"):
+            pef, cosf, _ = run_eas(e_int, beta, whole.astype(np.float64), E, cloudf)
+        with cut(f"EAS({det} km), decay altitudes as an {case['int_alt']} array"):
+            pei, cosi, _ = run_eas(e_int, beta, whole.astype(case["int_alt"]), E, cloudf)
+        require(
+            bool(np.all(np.abs(pei - pef) <= 1e-5 * np.abs(pef))) and bool(np.all(np.abs(cosi - cosf) <= 1e-9)),
+            f"whole-number decay altitudes {whole.tolist()} given as {case['int_alt']} give photo-electrons {pei.tolist()} / cosines {cosi.tolist()}; the same numbers as float64 give {pef.tolist()} / {cosf.tolist()}",
+        )
+        labels.add("integer_typed_altitudes")
+
     # (ii) linearity in area and efficiency, (iv) effective cone
     j = case["pick"] % int(inside.sum())
     jj = np.where(inside)[0][j]
@@ -284,6 +298,7 @@ SUBCHECKS = [
                 "cloud": st.one_of(st.none(), st.none(), st.floats(0.0, 18.0), st.sampled_from([3.0, 8.0, 12.5])),
                 "preempt": st.one_of(st.just([]), st.lists(st.one_of(st.integers(0, 60), st.integers(0, 600), st.integers(0, 5000)), min_size=1, max_size=2)),
                 "lowdet": st.one_of(st.none(), st.none(), st.none(), st.floats(2.0, 20.0), st.sampled_from([2.0, 4.5, 10.0])),
+                "int_alt": st.sampled_from([None, None, "int64", "int32", "uint32"]),  # (16-bit integers make numpy's ufuncs work in float32: single-precision noise of the ill-conditioned distance formula, not compared)
                 "bystander": st.one_of(st.none(), st.tuples(st.sampled_from([33.0, 400.0, 525.0, 2000.0, 4.0]), st.booleans()).map(list)),
             }
         ),
